@@ -42,6 +42,9 @@ def nestings(draw):
     kinds[-1] = "def"
     names = ["n%d_%s" % (i, draw(st.sampled_from(["a", "b", "c"]))) for i in range(depth)]
     decoys = draw(st.booleans())
+    # the nested function's name is also used by a sibling closure, so that in the enclosing function it is a cell variable
+    # rather than a plain local (co_cellvars, not co_varnames)
+    captured = draw(st.booleans())
     lines = ["def top():"]
     ind = 1
     getter = "top()"
@@ -64,6 +67,8 @@ def nestings(draw):
     for i in range(depth - 1, -1, -1):
         ind -= 1
         if i == 0 or kinds[i - 1] == "def":
+            if captured:
+                lines.append("    " * ind + "def user_%d(): return %s" % (i, names[i]))
             lines.append("    " * ind + "return %s" % names[i])
     # getter expression
     g = "top()"
@@ -79,7 +84,7 @@ def nestings(draw):
             expr = "%s()" % expr          # call the function -> returns names[i]
         else:
             expr = "%s.%s" % (expr, names[i])   # class attribute
-    return {"src": "\n".join(lines) + "\n", "path": names, "getter": expr, "kinds": kinds}
+    return {"src": "\n".join(lines) + "\n", "path": names, "getter": expr, "kinds": kinds + (["captured_by_sibling"] if captured else [])}
 
 
 def registry_ops():
